@@ -231,6 +231,13 @@ func (n *namer) genCmdBody(c *Cmd) {
 	if c.Parent == nil {
 		c.SubOptional = len(c.Subs) > 0 && r.Chance(cfg.PSubOptional, 100)
 	}
+	// a trailing slice positional in front of required sub-commands makes them unreachable; keep that rare
+	if c.Pos != nil && len(c.Subs) > 0 && !c.SubOptional && r.Chance(9, 10) {
+		if a := c.Pos.Args[len(c.Pos.Args)-1]; a.IsRest() {
+			a.T.W = WScalar
+			a.Req = ""
+		}
+	}
 }
 
 func (n *namer) genGroupBody(g *Grp, c *Cmd, nest int) {
